@@ -151,8 +151,7 @@ def user_calls(f: Func) -> List[ast.Call]:
             isinstance(n, ast.Call)
             and isinstance(n.func, ast.Name)
             and n.func.id in f.params
-            and any(isinstance(a, ast.Starred) for a in n.args)
-            and any(k.arg is None for k in n.keywords)
+            and (any(isinstance(a, ast.Starred) for a in n.args) or any(k.arg is None for k in n.keywords))
         ):
             out.append(n)
     return sorted(out, key=lambda c: c.lineno)
